@@ -291,7 +291,57 @@ func main() {
 		enc.Encode(ev)
 	}
 
+	// a caller that gives up although its proposal is applied: it sits between Propose and its select, the apply
+	// loop delivers the outcome, then the caller's context is cancelled and it is released - its select finds both
+	// the outcome and the cancellation ready.  Whatever it returns, the NEXT caller must get its own outcome
+	abandon := func(id uuid.UUID) {
+		hid++
+		ev := event{Ev: "write", Hid: hid, Kind: "insert", Path: "local", Order: "abandoned", Id: idnum(id)}
+		w.node.Reset("ok", false)
+		ev.Before = w.present(id)
+		g.arm(true)
+		ctx, cancel := context.WithCancel(context.Background())
+		done := make(chan error, 1)
+		t0 := time.Now()
+		go func() {
+			v := make(amath.Vector, 3)
+			v[0] = 2
+			done <- w.ds.Insert(ctx, id, v, index.Metadata{"k": "v"})
+		}()
+		select {
+		case n := <-g.arrived:
+			dl := time.Now().Add(200 * time.Millisecond)
+			for time.Now().Before(dl) && w.present(id) == ev.Before {
+				time.Sleep(2 * time.Millisecond)
+			}
+			time.Sleep(20 * time.Millisecond)
+			cancel()
+			g.release(n)
+		case err := <-done:
+			done <- err
+		}
+		err := <-done
+		cancel()
+		g.arm(false)
+		ev.Ms = int(time.Since(t0) / time.Millisecond)
+		ev.Ret = classify(err)
+		if err != nil {
+			ev.Err = err.Error()
+		}
+		ev.After = w.present(id)
+		enc.Encode(ev)
+	}
+
 	for r := 0; r < rounds; r++ {
+		for i := 0; i < 4; i++ {
+			a := w.fresh(pLocal)
+			abandon(a)
+			single("insert", "local", "caller-first", a) // exists (the abandoned proposal was applied), never the other caller's outcome
+			single("remove", "local", "caller-first", a) // ok
+			b := w.fresh(pLocal)
+			abandon(b)
+			single("update", "local", "caller-first", w.fresh(pLocal)) // notfound
+		}
 		for _, order := range []string{"caller-first", "apply-first"} {
 			a := w.fresh(pLocal)
 			single("insert", "local", order, a) // ok
